@@ -62,7 +62,7 @@ def run(ctx):
     cli = runner.build_cli()
     rt_common.configure(ctx, ctx.pick(2, 3))
     analyzers = [("e3_oracles", "analyze_c12_static"), ("rt_common", "analyze_c12_dynamic"), ("rt_common", "analyze_c11_dynamic")]
-    results = e3.run_cases(ctx, cli, ["keys", "rt_text"], ctx.pick(30, 2000), "c12", analyzers)
+    results = e3.run_cases(ctx, cli, ["keys", "rt_text"], ctx.pick(30, 1000), "c12", analyzers)
     # 120 argument lists per program: 90 programs = ~10^4 lists (quick), 900 = ~10^5 (thorough)
     micro = e3.run_cases(ctx, cli, ["args_big"], ctx.pick(90, 900), "c12m", analyzers + [("rt_common", "analyze_c12_micro")],
                          with_checked_in=False)
@@ -78,6 +78,11 @@ def run(ctx):
            "successful_compiles": st["ok"],
            "static": st["stats"], "runtime_keys": dy["stats"], "micro_workload": dict(mi["stats"], distinct_argument_lists=mi["distinct"]),
            "c11_dynamic": c11["stats"]}
+    generated = sum(1 for r in results if str(r.get("cid", "")).split(":")[0] != "checked-in")
+    if generated and st["ok"] < 0.5 * generated:
+        # the generators produce programs the unchanged compiler accepts; if most are rejected (or crash, which is C08's
+        # subject) there is nothing to observe
+        raise runner.Inconclusive("only %d of %d generated programs compiled" % (st["ok"], generated))
     return runner.finish(ctx, LEVEL, cov, v, assumptions=[
         "the runtime key function (getNetworkResponseKey, not exported) is observed through the keys the real normalizeData "
         "looks up on a Proxy response for a one-node normalization AST",
